@@ -3,7 +3,9 @@
 package status
 
 import (
+	"fmt"
 	"os"
+	"strings"
 	"sync"
 	"testing"
 
@@ -96,27 +98,53 @@ func TestVerifC11Reporter(t *testing.T) {
 			out.Linef("stat len %d", length)
 		} else {
 			out.Linef("case %d mode=conc", c)
-			g := 2 + rnd.IntN(4)
-			var wg sync.WaitGroup
-			seeds := make([]uint64, g)
-			for j := range seeds {
-				seeds[j] = rnd.Uint64()
+			// every goroutine runs a script fixed in advance and logged (`tr script <g> <inst>:<status|k> ...`); the driver
+			// searches, per instance, for an interleaving of the goroutines' scripts whose run through the model delivers exactly
+			// the observed event sequence (reports are atomic steps: C11_interleaving) - `prop lin`
+			g := 2 + rnd.IntN(3)
+			steps := 6 + rnd.IntN(5)
+			if g == 4 {
+				steps = 6
 			}
+			type cop struct{ inst, a int } // a = status number, or -1 for ReportOKIfStarting
+			scripts := make([][]cop, g)
+			for j := range scripts {
+				var sb strings.Builder
+				for k := 0; k < steps; k++ {
+					o := cop{inst: rnd.IntN(nInst), a: -1}
+					if rnd.IntN(6) != 0 {
+						if rnd.IntN(3) == 0 {
+							o.a = rnd.IntN(len(statuses))
+						} else {
+							o.a = 1 + rnd.IntN(7)
+						}
+					}
+					scripts[j] = append(scripts[j], o)
+					if o.a < 0 {
+						fmt.Fprintf(&sb, " %d:k", o.inst)
+					} else {
+						fmt.Fprintf(&sb, " %d:%d", o.inst, o.a)
+					}
+				}
+				out.Linef("tr script %d%s", j, sb.String())
+			}
+			var wg sync.WaitGroup
+			start := make(chan struct{})
 			for j := 0; j < g; j++ {
 				wg.Add(1)
 				go func(j int) {
 					defer wg.Done()
-					r := vRand(int(seeds[j] % 1000003))
-					for k := 0; k < 40; k++ {
-						i := r.IntN(nInst)
-						if r.IntN(6) == 0 {
-							rep.ReportOKIfStarting(ids[i])
+					<-start
+					for _, o := range scripts[j] {
+						if o.a < 0 {
+							rep.ReportOKIfStarting(ids[o.inst])
 						} else {
-							rep.ReportStatus(ids[i], componentstatus.NewEvent(statuses[r.IntN(len(statuses))]))
+							rep.ReportStatus(ids[o.inst], componentstatus.NewEvent(statuses[o.a]))
 						}
 					}
 				}(j)
 			}
+			close(start)
 			wg.Wait()
 			out.Linef("nt")
 			out.Linef("stat conc 1")
